@@ -92,16 +92,14 @@ func isStub(fn *ssa.Function, errG *ssa.Global) bool {
 // returns the index of the successor taken when the flag is TRUE.  On amd64
 // the flag is a package-level variable (the condition is a load of it, maybe
 // compared with a bool constant or negated).  In the generic configurations
-// the flag is the constant false, go/ssa leaves `false == true` unfolded and
-// the flag-true successor is the one constant pruning removes.
+// the flag is the constant false: go/ssa leaves `false == true` (switch form)
+// and `if false` (if form) unfolded, the named constant is no longer visible,
+// and the flag-true successor is the one constant pruning removes — in these
+// configurations the rule is "calls into V occur only in pruned code".
 func flagTest(cond ssa.Value, flagG *ssa.Global) (trueSucc int, ok bool) {
 	if flagG == nil {
 		c, isC := load.FoldConst(cond)
 		if !isC || c.Kind() != constant.Bool {
-			return 0, false
-		}
-		if _, plain := cond.(*ssa.Const); plain {
-			// a literal `if false` is not a dispatch test
 			return 0, false
 		}
 		if constant.BoolVal(c) {
